@@ -51,6 +51,25 @@ def gen_plain(rng, large):
     return "large", (b"{" if rng.random() < 0.5 else b"") + (rb(997) * (large // 997 + 1))[:rng.randint(large // 2, large)]
 
 
+# passwords: some END in white space (so that "the same without its trailing white space" is a wrong password)
+BASE_PW_PLAIN = ["secret", "Mixed Case", "P\u00e4ssw\u00f6rd", " lead", "a\tb", "x"]
+BASE_PW_WS = ["pass phrase ", "tab\t", "line\n", "crlf\r\n", "two  ", "ff\x0c"]
+
+
+def hexpw(p):
+    return p.encode("utf-8").hex() if p else "-"
+
+
+def near_misses(p):
+    """wrong passwords close to p (trailing white space variants first); none is byte-equal to p"""
+    import unicodedata
+    ws = " \t\n\r\x0c\x0b"
+    c = [p + " ", p + "\t", p + "\n", p + "\r\n", p + "\r", p + "\x0c", p.rstrip(ws), p.rstrip(), p.rstrip(ws) + " ", p.strip(),
+         " " + p, "\t" + p, "\n" + p, p.lstrip(ws), p.swapcase(), p.lower(), p.upper(), p + "x", p + "\x01", p[:-1], p[1:], "",
+         unicodedata.normalize("NFD", p), unicodedata.normalize("NFC", p), unicodedata.normalize("NFKC", p), p.replace(" ", "\u00a0"), p + "\u00a0", p + p]
+    return [x for x in dict.fromkeys(c) if x.encode("utf-8") != p.encode("utf-8")]
+
+
 def probes_for(rng, n, blob=False):
     p = []
     for j in sorted({0, 1, 15, 16, 17, 31, 32, n // 2, n - 1}):
@@ -75,18 +94,21 @@ def run(ctx):
     ctx.assumptions += [
         "ideal AEAD (Section hypothesis ideal_aead): |body| = |message|, 16-byte tag, correctness on issued encryptions, INT-CTXT (only issued (nonce, ciphertext) pairs verify), a nonce is used for one message per key; AES256-CTR/Poly1305-AES strength is outside",
         "nonce freshness is a hypothesis of the theorems; on the implementation 10^4 (thorough 10^5) nonces are observed pairwise distinct, randomness of the generator is outside",
-        "ideal KDF: scrypt(p, salt) = scrypt(p', salt) implies p = p'; ciphertexts issued under different keys differ (key separation)",
+        "ideal KDF: scrypt(p, salt) = scrypt(p', salt) implies p = p'; ciphertexts issued under different keys differ (key separation).  Known limit of the idealisation, inherent to HMAC inside PBKDF2/scrypt and observed on every run (coverage.scrypt_trailing_NUL_password_equivalence_observed): passwords shorter than 64 bytes that differ only by trailing NUL bytes derive the same key; NUL-suffixed variants are therefore not in the near-miss oracle",
         "zstd is an abstract invertible codec (decode (encode l d) = d); the extracted model is fed with the frames the real code produced",
         "SHA-256 has no second preimage on the values that occur (only used by the id-checking read of the repair theorems)",
         "serde_json round-trips MasterKey and KeyFile; every serialised repository file starts with '{' or '['",
         "empty blobs never reach process_data (the chunker emits no empty chunk, a serialised tree is never empty): the NonZeroU32::new(0) corner (blob_empty_compressed_corner) is unreachable from the public API",
-        "passwords are opaque values; the listing order of key files does not matter for whether a password opens",
+        "passwords are opaque values compared byte for byte (two passwords are the same iff their UTF-8 bytes are equal); the listing order of key files does not matter for whether a password opens",
+        "scrypt is fed exactly the password bytes (obligation kdf_fed_with_password_bytes, regenerated from keyfile.rs / repository.rs / commands/key.rs) — otherwise the ideal-KDF hypothesis would be about scrypt composed with that transformation",
         "in-memory backend with bounds-checked partial reads (a short read is an error, as with the local backend's read_exact)",
     ]
     if meta:
         cov["write_site_classes"] = meta["classes"]
         cov["write_sites"] = len(meta["sites"])
         cov["unencrypted_file_types"] = meta["unencrypted"]
+        cov["kdf_password_argument"] = meta["kdf_password_argument"]
+        cov["password_flow_unchanged"] = meta["password_flow"]
     try:
         model = vlib.build_model("C04")
     except RuntimeError as e:
@@ -225,22 +247,40 @@ def run(ctx):
     if f.get("distinct_bodies") != str(nn):
         viol.append(("two encryptions of one message under one key gave the same body and tag", {"cases": ["nonces 1 %d" % nn]}, o, None))
 
-    # ---------------------------------------------------------------- D. key files
-    kfl, kml = [], []
-    for i in range(4 if thorough else 2):
-        pw = "pw%d-%d" % (i, rng.randint(0, 999))
-        wrong = [pw + "x", pw[:-1], ""][: (3 if thorough else 2)]
-        kfl.append("kf %d %s %d %s" % (rng.randint(1, 10 ** 6), pw, len(wrong), " ".join(w if w else "''" for w in wrong)))
+    # ---------------------------------------------------------------- D. key files, near-miss passwords
+    # every wrong password must be REJECTED unless it is byte-equal to the password the key file
+    # was made with: trailing / leading white space, case, one byte more or less, empty, unicode
+    # normalisation variants ("only the correct password opens", the only-if direction)
+    kfl, kml, kfw = [], [], []
+    bases = [rng.choice(BASE_PW_PLAIN) + str(rng.randint(0, 99)), rng.choice(BASE_PW_WS)]
+    if thorough:
+        bases += [rng.choice(BASE_PW_PLAIN), rng.choice(BASE_PW_WS), "P\u00e4ssw\u00f6rd", "x"]
+    for pw in bases:
+        wrong = near_misses(pw)
+        kfl.append("kf %d %s %d %s" % (rng.randint(1, 10 ** 6), hexpw(pw), len(wrong), " ".join(hexpw(w) for w in wrong)))
         kml.append("kf 7 1 %d %s" % (len(wrong), " ".join(str(2 + j) for j in range(len(wrong)))))
+        kfw.append((pw, wrong))
+    # informational (NOT part of the oracle): HMAC zero-pads keys shorter than its block, so inside
+    # PBKDF2/scrypt a password and the same password followed by NUL bytes are the same key.  This is
+    # a property of the primitive (outside the ideal-KDF hypothesis), recorded so that it is visible.
+    o = run_lines(impl, ["kf %d %s 1 %s" % (rng.randint(1, 10 ** 6), hexpw("nul-probe"), hexpw("nul-probe\x00"))], "kfnul")[0]
+    cov["scrypt_trailing_NUL_password_equivalence_observed"] = fields(o)[1].get("wrong") == "ok"
     ko = run_lines(impl, kfl, "kf")
     km = run_lines(model, kml, "kfm") if model else None
     for i, (a, b) in enumerate(zip(kfl, ko)):
         st, f = fields(b)
-        evaluations += 1
+        pw, wrong = kfw[i]
+        evaluations += 1 + len(wrong)
+        bump("keyfile_near_miss_passwords", len(wrong))
         if st != "ok" or f.get("right") != "ok" or f.get("idok") != "1" or f.get("json") != "1":
             viol.append(("key file does not open with its own password / is not stored under its hash", {"cases": [a]}, b, None))
-        if any(w != "mac" for w in f.get("wrong", "").split(",")):
-            viol.append(("key file opened (or failed otherwise than by MAC) with a wrong password", {"cases": [a]}, b, None))
+        res = f.get("wrong", "").split(",")
+        for w, c in zip(wrong, res):
+            bump("keyfile_wrong/" + c)
+            if c != "mac":
+                viol.append(("key file made with password %r %s with the different password %r" % (pw, "OPENS" if c == "ok" else "fails with '%s' instead of the MAC error" % c, w),
+                             {"cases": [a], "password": pw, "wrong_password": w}, b, None))
+                break
         if km:
             g = fields(km[i])[1]
             if g.get("right") != f.get("right") or g.get("wrong") != f.get("wrong"):
@@ -249,9 +289,10 @@ def run(ctx):
 
     # ---------------------------------------------------------------- E. key-management histories
     nh = 8 if thorough else 3
-    hl, hm = [], []
+    hl, hm, hops = [], [], []
     for h in range(nh):
-        pws = ["p%d" % j for j in range(4)]
+        # a pool with at least one password that itself ends in white space
+        pws = [rng.choice(BASE_PW_PLAIN), rng.choice(BASE_PW_WS), rng.choice(BASE_PW_PLAIN + BASE_PW_WS) + str(rng.randint(0, 9)), rng.choice(BASE_PW_WS) + "z"]
         init = rng.choice(["im", "ip:" + pws[0]])
         ops, alive, nadded = [], {}, 1
         if init != "im": alive[0] = pws[0]
@@ -266,25 +307,47 @@ def run(ctx):
             elif c < 0.55 and alive:
                 ops.append("dc:" + rng.choice(list(alive.values())))
             elif c < 0.9:
-                ops.append("o:" + (rng.choice(list(alive.values())) if alive and rng.random() < 0.5 else rng.choice(pws + ["nope"])))
+                r2 = rng.random()
+                if alive and r2 < 0.4: ops.append("o:" + rng.choice(list(alive.values())))
+                elif alive and r2 < 0.7: ops.append("o:" + rng.choice(near_misses(rng.choice(list(alive.values())))))
+                else: ops.append("o:" + rng.choice(pws + ["nope"]))
             else:
                 ops.append("m:%d" % rng.randint(0, 1))
+        if len(alive) < 2 and rng.random() < 0.8:
+            p = pws[1] if pws[1] not in alive.values() else pws[0]
+            ops.append("a:" + p); alive[nadded] = p; nadded += 1
+        # the only-if direction: near misses of every current password (at most two) must be refused
+        for p in list(dict.fromkeys(alive.values()))[:2]:
+            nm = near_misses(p)
+            must = [x for x in (p + " ", p + "\n", p + "\r\n", p.rstrip(" \t\n\r\x0c\x0b"), " " + p) if x != p]
+            pick = list(dict.fromkeys(must[: (5 if thorough else 3)] + rng.sample(nm, min(len(nm), 6 if thorough else 2))))
+            ops += ["o:" + x for x in pick] + ["o:" + p]
         ops += ["o:" + p for p in pws[:2]] + ["m:1", "m:0"]
-        hl.append("keys %d %s %s" % (h, init, " ".join(ops)))
-        num = lambda s: s if ":" not in s or s.split(":")[0] in ("d", "m") else s.split(":")[0] + ":" + str({"p0": 10, "p1": 11, "p2": 12, "p3": 13, "nope": 99}[s.split(":")[1]])
-        hm.append("keys %s %s" % (num(init), " ".join(num(x) for x in ops)))
+        pwid = {}
+        def enc(tok, model_side):
+            k, _, arg = tok.partition(":")
+            if k in ("d", "m", "im"): return tok
+            if model_side: return "%s:%d" % (k, pwid.setdefault(arg, 10 + len(pwid)))
+            return "%s:%s" % (k, hexpw(arg))
+        hl.append("keys %d %s %s" % (h, enc(init, False), " ".join(enc(x, False) for x in ops)))
+        hm.append("keys %s %s" % (enc(init, True), " ".join(enc(x, True) for x in ops)))
+        hops.append((init, ops))
     ho = run_lines(impl, hl, "keys", timeout=2400)
     hmo = run_lines(model, hm, "keysm") if model else ho
-    for a, b, c, d in zip(hl, ho, hm, hmo):
-        nops = len(a.split()) - 3
+    for a, b, c, d, (init, ops) in zip(hl, ho, hm, hmo, hops):
+        nops = len(ops)
         evaluations += nops
         bump("key_history_ops", nops)
+        added = ([init[3:]] if init.startswith("ip:") else []) + [x[2:] for x in ops if x.startswith("a:")]
         if b != d:
             # is it a violation of the property itself?  (model = proven spec)
             bi, di = b.split()[2:], d.split()[2:]
-            worse = [(x, y) for x, y in zip(bi, di) if x != y and (x.startswith("o=") or x.startswith("m="))]
+            worse = [(op, x, y) for op, x, y in zip(ops, bi, di) if x != y and (x.startswith("o=") or x.startswith("m="))]
             if worse:
-                viol.append(("open result differs from 'opens iff a current key file was made with the password; master key always': impl %s, expected %s" % worse[0], {"cases": [a]}, b, None))
+                op, x, y = worse[0]
+                what = ("open with password %r" % op[2:]) if op.startswith("o:") else ("open with %s master key" % ("the" if op == "m:1" else "a wrong"))
+                viol.append(("%s gives %s, expected %s: a password must open iff a CURRENT key file was made with exactly these bytes (passwords ever added in this history: %r); master key always" % (what, x, y, added),
+                             {"cases": [a], "history": [init] + ops, "op": op}, b, None))
             else:
                 mism.append(("key history", a, b, d))
         else:
